@@ -25,6 +25,10 @@ FILES = {
     "src/pid.c": ["C12"], "src/pid_fuzzy.c": ["C12"], "src/pid_neuro.c": ["C12"],
     "src/tf.c": ["C16"], "include/a/lpf.h": ["C16"], "include/a/hpf.h": ["C16"], "include/a/tf.h": ["C16"],
     "src/crc.c": ["C17"], "src/hash.c": ["C17"],
+    # shared helpers and the headers with inline members / macros
+    "src/math.c": ["C16"], "include/a/a.h": ["C04", "C12", "C16", "C17"],
+    "include/a/pid.h": ["C12"], "include/a/pid_fuzzy.h": ["C12"], "include/a/pid_neuro.h": ["C12"],
+    "include/a/crc.h": ["C17"], "include/a/hash.h": ["C17"], "include/a/utf.h": ["C18", "C06"],
 }
 RUNS = {"C01": 30000, "C02": 30000, "C03": 30000, "C04": 30000, "C05": 40000, "C06": 40000, "C07": 2500, "C12": 40000, "C16": 60000, "C17": 60000, "C18": 80000}
 
